@@ -165,10 +165,15 @@ def exec_state(df, st, emb, magc, part, variant=0):
                 f.norm = None
                 lastop = "setnone"
             elif h[0] == "update":
-                if (variant + j) % 2 == 0:
+                if (variant + j) % 3 == 0:
                     f.update_field_values(raw_array(h[2], n, MV))
-                else:
+                elif (variant + j) % 3 == 1:
                     f.array = raw_array(h[2], n, MV)
+                else:
+                    # a history with reads in between: norm and orientation are read, then the values are written
+                    # IN PLACE through the array the getter returns (seeded change C15-2: a cached norm went stale)
+                    f.norm.array, f.orientation.array
+                    f.array[...] = raw_array(h[2], n, MV)
                 lastop = "update"
             else:
                 raise core._tlc.MachineryError(f"unknown history step {h}")
@@ -449,10 +454,14 @@ def _drive(df, rnd, tid, tr, mesh, m, n, ncell, nv, emb, MV, MN, vecs, mask, tar
             cells = post
         elif r < 0.65:
             vecs2 = _rand_vecs(rnd, nv, ncell)
-            if rnd.random() < 0.5:
+            how = rnd.random()
+            if how < 0.35:
                 f.update_field_values(raw_array(vecs2, n, MV))
-            else:
+            elif how < 0.7:
                 f.array = raw_array(vecs2, n, MV)
+            else:
+                f.norm.array, f.orientation.array      # reads in between, then an in-place write
+                f.array[...] = raw_array(vecs2, n, MV)
             post, ex = _project_cells(fldmod.flatten(f.array), MV, [1] * ncell)
             tr["ev"].append({"k": "update", "vecs": vecs2, "post": post, "exact": ex})
             if not ex or not _int_lengths(post):
@@ -474,6 +483,12 @@ def _drive(df, rnd, tid, tr, mesh, m, n, ncell, nv, emb, MV, MN, vecs, mask, tar
                     if abs(x - k) > REL * max(1, abs(k)):
                         ex = False
                     fr = Fraction(int(k), c["s"][1])
+                    if abs(fr.numerator) > 30000 or fr.denominator > 30000:
+                        # far from any length this driver can produce: report it as inexact (a verdict) instead of
+                        # letting TLC's 32-bit arithmetic overflow (a machinery error)
+                        ex = False
+                        vals.append([0, 1])
+                        continue
                     vals.append([fr.numerator, fr.denominator])
             tr["ev"].append({"k": "norm", "meta": meta, "norm": vals, "exact": ex,
                              "valid": [bool(x) for x in fldmod.flatten_mask(g.valid)] if meta else [],
